@@ -85,6 +85,10 @@ template <class T> struct SPxLPBase
    const T& rhs(int i) const { return (*(VectorBase<T>*)&right)[i]; }
    const T& lower(int i) const { return (*(VectorBase<T>*)&low)[i]; }
    const T& upper(int i) const { return (*(VectorBase<T>*)&up)[i]; }
+   /* stub: the LP is not persistently scaled (_isScaled == false), where the real lowerUnscaled/upperUnscaled return
+      the stored bound; only used for the slack basis reported when no basis is available */
+   T lowerUnscaled(int i) const { return lower(i); }
+   T upperUnscaled(int i) const { return upper(i); }
    /* position of the row/column named by id (stub: carried by the id; type invariant of the LP's
       DataSet: a valid id names an existing row/column) */
    int number(const SPxId& id) const
@@ -161,7 +165,8 @@ template <class T> struct SPxBasisBase : SPxLPBase<T>
    SPxSolverBase<T>* theLP;
    Desc thedesc;
    SPxStatus thestatus;
-   SPxId* theBaseId; int theBaseIdSize;
+   /* stands for DataArray<SPxId> theBaseId: (info, position) of the i-th basis vector in two parallel arrays */
+   int* theBaseIdInfo; int* theBaseIdNum; int theBaseIdSize;
 
    SPxStatus status() const { return thestatus; }
    const Desc& desc() const { return *(Desc*)&thedesc; }
@@ -169,7 +174,8 @@ template <class T> struct SPxBasisBase : SPxLPBase<T>
    SPxId baseId(int i) const
    {
       __CPROVER_assert(0 <= i && i < theBaseIdSize, "baseId index in bounds");
-      return theBaseId[i];
+      SPxId id; id.info = theBaseIdInfo[i]; id.num = theBaseIdNum[i];
+      return id;
    }
    typename Desc::Status dualRowStatus(int i) const
    {
@@ -271,6 +277,6 @@ static inline void basis_stub_init(S& s, double* lhs, double* rhs, int nr, doubl
    s.coset.s = (SPxSolverBase<double>*)&s; s.thecovectors = &s.coset;
    s.thestatus = SPxBasisBase<double>::REGULAR;
    s.m_status = SPxSolverBase<double>::UNKNOWN;
-   s.theBaseId = 0; s.theBaseIdSize = 0;
+   s.theBaseIdInfo = 0; s.theBaseIdNum = 0; s.theBaseIdSize = 0;
 }
 #endif
